@@ -458,7 +458,7 @@ theorem parseHeadersLoop_too_many (fields : List FieldS) : ∀ (fuel : Nat) (res
 
 /-! ### the status line -/
 
-theorem readLine_line (ln : Bytes) (limit : Nat) (rest : List Item)
+theorem readLine_crlf_line (ln : Bytes) (limit : Nat) (rest : List Item)
     (h10 : (10 : UInt8) ∉ ln) (hlim : ln.length + 2 ≤ limit) :
     readLine flatSrc (bytesI (ln ++ [13, 10]) ++ rest) limit = (.ok ln, rest) := by
   have hpre : (10 : UInt8) ∉ ln ++ [13] := by simp [h10]
@@ -560,7 +560,7 @@ theorem head_roundtrip (h : HeadS) (hwf : h.WF Consts.maxLineLen) (rest : List I
       (bytesI (renderFields h.fields ++ [13, 10]) ++ rest) := by
     rw [h.render_eq]; simp
   unfold parseResponseHead
-  rw [hs, readLine_line _ _ _ (h.statusLine_no_lf hwf) hwf.2.2.2.2.2.2.2.2.1]
+  rw [hs, readLine_crlf_line _ _ _ (h.statusLine_no_lf hwf) hwf.2.2.2.2.2.2.2.2.1]
   simp only [parseStatusLine_wf h hwf]
   rw [parseHeadersLoop_fields h.fields _ rest mh [] hwf.2.2.2.2.2.2.2.2.2
     (by have := renderFields_length h.fields; simp [headFuel]; omega) (by simpa using hmh)
@@ -575,7 +575,7 @@ theorem head_too_many (h : HeadS) (hwf : h.WF Consts.maxLineLen) (rest : List It
       (bytesI (renderFields h.fields ++ [13, 10]) ++ rest) := by
     rw [h.render_eq]; simp
   unfold parseResponseHead
-  rw [hs, readLine_line _ _ _ (h.statusLine_no_lf hwf) hwf.2.2.2.2.2.2.2.2.1]
+  rw [hs, readLine_crlf_line _ _ _ (h.statusLine_no_lf hwf) hwf.2.2.2.2.2.2.2.2.1]
   simp only [parseStatusLine_wf h hwf]
   have := parseHeadersLoop_too_many h.fields
     (headFuel flatSrc (bytesI (renderFields h.fields ++ [13, 10]) ++ rest)) rest mh []
